@@ -326,6 +326,32 @@ REGISTRY = {
         "correspondence": "Lmd.PeerSt.fail / recovered / tick / clientQuery / initAllTables vs setNextAddrFromErr / resetErrors / periodicUpdate / ResumeFromIdle / InitAllTables",
         "assumptions": ["virtual clock (overlay patch of currentUnixTime), whole seconds", "BackendKeepAlive off, MaxParallelPeerConnections 1 (serial init)", "fallback addresses and HTTP backends are not modelled"],
     },
+    "C12": {
+        "lean_modules": ["C12"],
+        "run": worldfam.run_c12,
+        "rule": "histories of 3-16 rounds on a real Peer: 0-3 additions/removals of host and service comments and downtimes per round (ids monotonically increasing with gaps beyond 8 bit, removing the newest / the oldest / everything), then an update tick; "
+                "after each round GET comments, GET downtimes and the comments/downtimes id lists of hosts and services are compared with Lmd.updateDelta (maxIdOrSizeChanged, syncEntries, buildIdLists)",
+        "correspondence": "Lmd.maxIdOrSizeChanged / syncEntries / rebuildLists vs maxIDOrSizeChanged / updateDeltaCommentsOrDowntimes / buildDowntimeCommentsList",
+        "assumptions": ["ids created by the backend are larger than every id it created before (the Livestatus contract, MonotoneIds)", "virtual clock, whole seconds"],
+    },
+    "C03": {
+        "lean_modules": ["C03"],
+        "run": worldfam.run_c03,
+        "rule": "histories of 3-20 rounds on a real Peer: backend mutations of kinds check result / acknowledgement / downtime depth / enabled flag / modified attributes / running check / custom variable values / timeperiod flip at instants inside the update interval, "
+                "update ticks with contiguous windows, updates aborted after 0-6 backend queries, backends with and without last_update, SyncIsExecuting on/off; every dynamic host/service column is compared with Lmd.updateDelta after each round, "
+                "and after quiescence plus full-scan cycles with a fresh synchronisation of the final backend state (convergence)",
+        "correspondence": "Lmd.deltaTable / applyDelta / updateFullTable / updateTimeperiods vs updateDeltaHostsServices / updateFullScan / prepareDataUpdateSet / UpdateFullTable / updateTimeperiodsData",
+        "assumptions": ["virtual clock, whole seconds", "MaxParallelPeerConnections 1", "Icinga2 object-count reload is not modelled"],
+    },
+    "C11": {
+        "lean_modules": ["C11"],
+        "run": worldfam.run_c11,
+        "rule": "histories of 2-5 rounds on a real Peer: backend restarts with a replaced object set (program_start / pid change), object count changes without restart (contact, host group, timeperiod added), restarts without changes; "
+                "the rebuild or the update that detects it fails at backend query 0-15 in modes closing early / garbage / error code / truncated; all tables are read after every tick and compared with Lmd.tick / initAllTables, "
+                "and after recovery with a fresh synchronisation of the backend's final object set",
+        "correspondence": "Lmd.updateFullTable (CheckBackendRestarted, row count) / initAllTables / tick vs the Go functions",
+        "assumptions": ["virtual clock", "MaxParallelPeerConnections 1 (serial rebuild, so that the failing fetch is determined)", "Icinga2 count-probe reload is not modelled"],
+    },
     "C04": {
         "lean_modules": ["C04"],
         "run": mk_query_runner(c04_opts, 500, 8000),
